@@ -1511,6 +1511,35 @@ impl TransportManager {
     }
 }
 
+#[cfg(litep2p_verif)]
+impl TransportManager {
+    /// Stored addresses of `peer` with their scores (verification only).
+    pub fn verif_peer_addresses(&self, peer: &PeerId) -> Vec<(Multiaddr, i32)> {
+        self.peers
+            .read()
+            .get(peer)
+            .map(|context| {
+                context
+                    .addresses
+                    .addresses
+                    .values()
+                    .map(|record| (record.address().clone(), record.verif_score()))
+                    .collect()
+            })
+            .unwrap_or_default()
+    }
+
+    /// Debug rendering of the peer state (verification only).
+    pub fn verif_peer_state(&self, peer: &PeerId) -> Option<String> {
+        self.peers.read().get(peer).map(|context| format!("{:?}", context.state))
+    }
+
+    /// Number of pending connections (verification only).
+    pub fn verif_pending_connections(&self) -> usize {
+        self.pending_connections.len()
+    }
+}
+
 #[cfg(test)]
 mod tests {
     use crate::transport::manager::{address::AddressStore, peer_state::SecondaryOrDialing};
